@@ -221,7 +221,14 @@ func ruleC13_4(c *Ctx) {
 		}
 		durDep := func(v ssa.Value) bool {
 			return c.An.dependsOnCall(v, func(cc *ssa.Call) bool {
-				return cc.Call.IsInvoke() && cc.Call.Method.Name() == "StaleIfError" || c.An.isAccessorCallAny(cc, "stale-if-error")
+				if c.An.isAccessorCallAny(cc, "stale-if-error") {
+					return true
+				}
+				// the interface call through which the policy reads the directive of each source
+				return c.An.invokeResolvesTo(cc, func(f *ssa.Function) bool {
+					di, ok := c.A.DirAcc[f]
+					return ok && di.Directive == "stale-if-error"
+				})
 			})
 		}
 		ld, rd := durDep(cmp.X), durDep(cmp.Y)
